@@ -78,6 +78,13 @@ def path : String → Option Value
 def ask (w : Inputs) (st : St) (ev : Value → Value) : Option Res :=
   some (.val (st.input w ev).1 (st.input w ev).2)
 
+/-- an operation that returns `()` or panics, the environment says which: the next input is `bool completes`
+    (anything else: no rule); logged as `ev (bool completes)` -/
+def askDone (w : Inputs) (st : St) (ev : Value → Value) : Option Res :=
+  match (st.input w ev).1 with
+  | .bool b => some (if b = true then .val .unit (st.input w ev).2 else .panic)
+  | _ => none
+
 def call (w : Inputs) : String → List Value → St → Option Res
   -- channels.rs `new_channel_web::<ChannelId, Message>(ids)` (called with a turbofish, so the call does not
   -- resolve to the translated function, whose `HashMap::insert`s the interpreter cannot run): the environment
@@ -139,10 +146,11 @@ def method (w : Inputs) : Value → String → List Value → St → Option Res
   | .ext "Instant" i, "checked_sub", [d], st => ask w st (evOp "Instant::checked_sub" [.ext "Instant" i, d])
   -- shm_writer.rs `ShmUpdater::process_clock_update` / `process_missing_clock_update`: only consulted by a context
   -- whose function table does not contain them (`CodeTieThreads.writerCtx`; they are tied by `CodeTieUpdater`):
-  -- abstract operations, the environment says whether they complete (`tuple []`) — see `completes`
-  | .struct "ShmUpdater" _, "process_clock_update", args, st => ask w st (evOp "process_clock_update" args)
+  -- abstract operations `(&mut self, ..) -> ()`: the environment says whether they complete or panic (`askDone`);
+  -- the updater value is not changed (its state is not looked at by the loop around these calls)
+  | .struct "ShmUpdater" _, "process_clock_update", args, st => askDone w st (evOp "process_clock_update" args)
   | .struct "ShmUpdater" _, "process_missing_clock_update", args, st =>
-    ask w st (evOp "process_missing_clock_update" args)
+    askDone w st (evOp "process_missing_clock_update" args)
   | _, _, _, _ => none
 
 /-- std `vec![a, b, ..]` with two or more elements listed (the translator hands them over one by one; the core's
